@@ -229,6 +229,58 @@ func main() {
 		{"internal/project/version.go", "SplitPathVersion", "splitPathVersion"},
 		{"internal/project/version.go", "JoinPathVersion", "joinPathVersion"},
 	})
+	// how LoadConfigFile gets the bytes it hands to LoadConfigBytes: the call on the right-hand side of the assignment
+	// that binds LoadConfigBytes' argument (os.ReadFile reads the whole file; a bounded reader would not)
+	if f, err := lib.Parse(*repo, "internal/project/config.go"); err == nil {
+		if fd := f.Func("LoadConfigFile"); fd == nil || fd.Body == nil {
+			o.Fail("func LoadConfigFile not found")
+		} else {
+			arg := ""
+			ast.Inspect(fd.Body, func(n ast.Node) bool {
+				if c, ok := n.(*ast.CallExpr); ok {
+					if id, ok := c.Fun.(*ast.Ident); ok && id.Name == "LoadConfigBytes" && len(c.Args) == 1 {
+						if a, ok := c.Args[0].(*ast.Ident); ok {
+							arg = a.Name
+						}
+					}
+				}
+				return true
+			})
+			var calls []string
+			ast.Inspect(fd.Body, func(n ast.Node) bool {
+				as, ok := n.(*ast.AssignStmt)
+				if !ok || len(as.Lhs) == 0 || len(as.Rhs) != 1 {
+					return true
+				}
+				if id, ok := as.Lhs[0].(*ast.Ident); ok && id.Name == arg && arg != "" {
+					if c, ok := as.Rhs[0].(*ast.CallExpr); ok {
+						switch fn := c.Fun.(type) {
+						case *ast.SelectorExpr:
+							if x, ok := fn.X.(*ast.Ident); ok {
+								calls = append(calls, x.Name+"."+fn.Sel.Name)
+							} else {
+								calls = append(calls, "?."+fn.Sel.Name)
+							}
+						case *ast.Ident:
+							calls = append(calls, fn.Name)
+						default:
+							calls = append(calls, "?")
+						}
+					} else {
+						calls = append(calls, "?")
+					}
+				}
+				return true
+			})
+			q := make([]string, len(calls))
+			for i, t := range calls {
+				q[i] = lib.LeanString(t)
+			}
+			o.Def("loadConfigFileReadCalls", "List String", "["+strings.Join(q, ", ")+"]")
+			o.Def("loadConfigFileBody", "String", lib.LeanLongString(normBody(fd)))
+		}
+	}
+
 	// the struct tags of Config / RequirementConfig: the TOML keys
 	if f, err := lib.Parse(*repo, "internal/project/config.go"); err == nil {
 		var tags []string
